@@ -139,6 +139,10 @@ def color_chunk(args):
                 bad = 'stripping the styling does not give the plain rendering'
             elif final != '':
                 bad = 'the stream does not end in the reset state'
+            elif exp is not None and got != exp and states != decode(exp)[1]:
+                # the model is proved (C16.innermost) to show every character in the style of its innermost token
+                k = next(i for i, (a, b) in enumerate(zip(states, decode(exp)[1])) if a != b)
+                bad = 'character %d (%r) is not shown in the style of its innermost syntax token under this style' % (k, text[k])
             if bad and len(fails) < 3:
                 fails.append({'kind': 'colour-output', 'why': bad, 'style': sname, 'case': repr(case)[:300], 'bytes': repr(got)[:400]})
             if '\x1b[' in got:
